@@ -27,6 +27,21 @@ theorem groupSecret_eq_eval (D : Finset ℕ) (f : ℕ → F[X]) :
   unfold groupSecret groupPoly
   rw [eval_finsetSum]
 
+theorem resharePoly_degree_lt (t' : ℕ) (O : Finset ℕ) (g : ℕ → F[X])
+    (hg : ∀ i ∈ O, (g i).degree < t') : (resharePoly O g).degree < t' := by
+  unfold resharePoly
+  refine lt_of_le_of_lt (degree_sum_le O _) ?_
+  refine (Finset.sup_lt_iff (WithBot.bot_lt_coe t')).mpr fun i hi => ?_
+  by_cases h0 : (lam O i : F) = 0
+  · rw [h0, C_0, zero_mul, degree_zero]; exact WithBot.bot_lt_coe _
+  · rw [degree_C_mul h0]; exact hg i hi
+
+theorem reshareShare_eq_share (O : Finset ℕ) (g : ℕ → F[X]) (j : ℕ) :
+    reshareShare O g j = share (resharePoly O g) j := by
+  unfold reshareShare share resharePoly
+  rw [eval_finsetSum]
+  exact Finset.sum_congr rfl fun i _ => by rw [eval_mul, eval_C]
+
 end CharonV.Frost
 
 /-! ### routing model (`Model/FrostGlue.lean`) -/
